@@ -18,7 +18,7 @@ func init() {
 		Level: "exploration",
 		Rule: "case = one key (0..12 characters from all Unicode planes, ASCII symbols, controls, DEL, C1, U+FFFD/U+FFFF, astral, escape-looking sequences such as \\n, \\u0041, lone " +
 			"surrogates as \\uXXXX text) stored as member k -> \"HIT\" of an object together with near-miss sibling keys (k+x, \\k, k\\, quoted k, k without/with doubled backslashes, " +
-			"k minus first/last character, case variants); queried as $['k'], $[\"k\"], the same with every character written as a \\uXXXX escape (upper-case / lower-case / mixed hex, surrogate pairs), $.k with every symbol backslash-escaped (non-empty keys without control characters), k with the root " +
+			"k minus first/last character, k with one inner character deleted / doubled, case variants); queried as $['k'], $[\"k\"], the same with every character written as a \\uXXXX escape (upper-case / lower-case / mixed hex, surrogate pairs), for keys containing U+FFFD also with every U+FFFD written as an UNPAIRED surrogate escape (root, after `..`, nested), $.k with every symbol backslash-escaped (non-empty keys without control characters), k with the root " +
 			"omitted, $..k, $..['k'], $[?(@['k']=='HIT')], $['k','k'], nested $.o['k']; judged: exactly [\"HIT\"] (direct map lookup is the model) for every spelling; " +
 			"non-trivial = the key contains a non-alphanumeric character; distinct = distinct keys",
 		Assumptions: []string{"keys are valid UTF-8 (JSON object keys)", "bracket spelling uses JSON-style escaping: the quote, backslash, \\b\\f\\n\\r\\t and \\u00XX for other control characters"},
